@@ -210,6 +210,49 @@ func c05Run(c *mon.Ctx, idx int) {
 		checkAgainstReference(c, "C05", ec, "alias-workload")
 		c.Count("alias_workload")
 	}
+	// the table must not depend on what the evaluator saw before: one
+	// evaluator per absent-leaf selector is used on the datum, on other
+	// representations of the same document (where the same selector fails for
+	// another reason: struct parent, pointer, absent intermediate) and on the
+	// datum again, and compared with fresh evaluators
+	others := []*univ.Node{datum}
+	for m := 0; m < 5; m++ {
+		if m != idx%5 {
+			others = append(others, univ.Represent(rand.New(rand.NewSource(seed+int64(m)+1)), doc, univ.Policy{Mode: m}))
+		}
+	}
+	others = append(others, datum, univ.IfaceMap())
+	nh := 0
+	for _, pl := range places {
+		if !pl.absent || nh >= 2 {
+			continue
+		}
+		sel, ok := g.selFor(pl.parts)
+		if !ok {
+			continue
+		}
+		nh++
+		m := &xgen.Match{Sel: sel, Op: xgen.Op(r.Intn(8)), Lit: &xgen.Lit{S: "1", Style: xgen.StyleQuoted}}
+		if !m.Op.HasValue() {
+			m.Lit = nil
+		}
+		txt := (&xgen.Renderer{R: r}).Render(m)
+		used, err, pan, _ := createEval(txt)
+		if pan != "" || err != nil {
+			continue
+		}
+		for oi, d := range others {
+			fresh, _, _, _ := createEval(txt)
+			ou, of := evaluate(used, d.Datum()), evaluate(fresh, d.Datum())
+			c.Evals(2)
+			if ou.Class() != of.Class() {
+				c.Violation(fmt.Sprintf("C05 history-dependent place=%s used=%s fresh=%s", pl.kind, ou.Class(), of.Class()), "the outcome for an absent path depends on what the evaluator was used on before",
+					map[string]any{"expression": clip(txt, 300), "step": oi, "datum": clip(d.Describe(), 1000), "used_evaluator": ou.String(), "fresh_evaluator": of.String()})
+				break
+			}
+		}
+		c.Count("history_sequences")
+	}
 	// (c) expressions whose selectors all resolve are unaffected by an unknown value
 	g3 := newEgen(r, datum, opt)
 	g3.pBroken = 0
@@ -246,7 +289,7 @@ func init() {
 		NumCases:    func(tier string) int { return tierN(tier, 4000, 150000) },
 		Run:         c05Run,
 		Required: func(tier string) []string {
-			l := []string{"unknown:inserted-compared", "unknown:not-applicable", "resolving_unaffected", "alias_workload"}
+			l := []string{"unknown:inserted-compared", "unknown:not-applicable", "resolving_unaffected", "alias_workload", "history_sequences"}
 			for _, k := range kinds {
 				l = append(l, "place-quant:"+k)
 				for _, op := range c01Ops {
